@@ -80,6 +80,11 @@ func (g *Gen) posOf(fn *ssa.Function, p token.Pos) string {
 
 func (fr *Frame) oblig(kind, group, label, f, src string, pos token.Pos) {
 	if group == "safety" && !fr.safety {
+		// no_safety: the condition is not an obligation of this unit, but execution continues past this
+		// point only if it held (otherwise the statement panicked)
+		if f != "true" {
+			fr.assume(f, "no_safety: "+src)
+		}
 		return
 	}
 	name := fr.unitName + "." + label
